@@ -317,6 +317,35 @@ def rule_every_iteration_solves(rep, res, entry=None):
                          entry=entry, config=res.config,
                          msg=f"under the guard {und} the iteration is skipped before problem.solve(): those rows keep the zeros of the result "
                              f"buffer instead of the fitted intensities (result depends on which rows share a batch)")
+        # a solve that is itself conditional inside the loop (memoised batches): the condition must see everything the batch's
+        # parameters are computed from, otherwise a batch inherits the solution of a batch with other weights / targets
+        inner = [g for g in sv.guards if len(g) > 4 and not g[3] and loop[0] == sv.fn.qual and getattr(g[2], "lineno", 0) > loop[1]]
+        if inner:
+            plain = lambda ds: {o.split("|")[0] for o in ds if "@" not in o and "#" not in o}
+            gdeps = set()
+            for g in inner:
+                gdeps |= plain(g[4] or ())
+            pdeps = set()
+            for st in res.events("attr_store"):
+                if st.d["attr"] == "value" and st.loops and st.loops[-1] == loop and st.fn is sv.fn:
+                    pdeps |= plain(st.d["val"].flat().data)
+            missing = sorted(pdeps - gdeps)
+            inner_nodes = set()
+            for g in inner:
+                inner_nodes |= {id(n_) for n_ in ast.walk(g[2])}
+            for tv in res.events("abs_tolerance"):
+                at = tv.d.get("atol")
+                if id(tv.node) in inner_nodes and not (at is not None and at.known and at.const == 0 and tv.d.get("rtol") is not None
+                                                       and tv.d["rtol"].known and tv.d["rtol"].const == 0):
+                    rep.violated("R-TYPESTATE", "a batch is solved whenever any of its parameters differ", where=tv.loc, construct=tv.text(),
+                                 entry=entry, config=res.config,
+                                 msg="problem.solve() is skipped when the batch's parameters are merely CLOSE (within a tolerance) to those of the "
+                                     "previous batch: the inherited solution reproduces / optimises the previous targets, not these, to no better "
+                                     "than that tolerance — which exceeds a tight requested fit tolerance")
+            rep.check("R-TYPESTATE", "a batch is solved whenever any of its parameters differ", not missing, where=sv.loc,
+                      construct=f"{norm_text(sv.node)[:40]} under `{inner[-1][0][:60]}`", entry=entry, config=res.config,
+                      msg=f"problem.solve() is skipped under a test that depends on {sorted(gdeps)} only, while the parameters of the batch are also "
+                          f"computed from {missing}: a batch with different {missing} silently inherits the previous batch's solution")
         if not skips:
             rep.holds("R-TYPESTATE", "every batch of the solve loop is solved", where=sv.loc, construct=norm_text(sv.node)[:60], entry=entry,
                       config=res.config)
@@ -603,13 +632,13 @@ def rule_dtype(rep, res, entry=None, rule="R-DTYPE"):
             other = sorted(o for o in v.data if o not in plain_src and "@" not in o and "#" not in o and "|" not in o)
             if other and not v.known and v.tag("kind") != "int" and not v.tag("boolarr"):
                 rep.violated(rule, "result buffer element type", where=ev.loc, construct=ev.text(), entry=entry, config=res.config,
-                             msg=f"values of `{', '.join(other)}` are stored into a copy of the caller's `{', '.join(sorted(src))}`, which keeps that "
-                                 f"array's dtype: with integer-typed `{', '.join(sorted(src))}` fractional values are truncated on the store")
+                             msg=f"values computed from `{', '.join(other)}` are stored into a buffer that keeps the dtype of the caller's "
+                                 f"`{', '.join(sorted(src))}`: with integer-typed `{', '.join(sorted(src))}` fractional values are truncated on the store")
             continue
         if not solved and v.tag("floating"):
             rep.violated(rule, "result buffer element type", where=ev.loc, construct=ev.text(), entry=entry, config=res.config,
                          msg=f"a floating-point result (linear solve / quotient) is stored into a buffer whose dtype is inherited from the "
-                             f"caller's `{', '.join(sorted(src))}` (…_like without dtype=): integer-typed bounds/targets truncate it")
+                             f"caller's `{', '.join(sorted(src))}` (…_like / np.full without dtype=): an integer-typed `{', '.join(sorted(src))}` truncates it")
             continue
         if solved:
             rep.violated(rule, "result buffer element type", where=ev.loc, construct=ev.text(), entry=entry,
@@ -857,3 +886,137 @@ def rule_every_iteration_reaches(rep, res, kind, what, entry=None, fn_name=None,
         if not skips:
             rep.holds(rule, f"every element of the loop goes through {what}", where=kv.loc, construct=norm_text(kv.node)[:60], entry=entry,
                       config=res.config)
+
+
+# ------------------------------------------------------------------ index spaces (def-use over the syntax tree of every reached function)
+_POS_FUNCS = {"flatnonzero", "nonzero", "where", "argwhere", "argsort", "argmin", "argmax"}
+_MASK_FUNCS = {"all", "any", "isfinite", "isnan", "isinf", "isclose", "logical_and", "logical_or", "logical_not", "isin"}
+
+
+def rule_index_space(rep, res, entry=None, rule="R-SHAPE"):
+    """positions computed in a FILTERED array (np.flatnonzero / where / argsort … of something derived from Y[mask]) index only arrays
+    that went through the same filter: row k of Y[mask] is not row k of Y.  Decided per reached function by def-use over its local
+    names (all assignments of a name are merged; unknown provenance = no filter)."""
+    entry = entry or res.entry
+    model = res.ctx.model
+    n = 0
+    for q in sorted(res.ctx.calls_seen):
+        mod, _, name = q.partition(":")
+        fn = model.method(mod, *name.split(".")) if "." in name else model.func(mod, name)
+        if fn is None:
+            continue
+        assigns = {}
+        for st in ast.walk(fn.node):
+            if isinstance(st, ast.Assign):
+                for t in st.targets:
+                    if isinstance(t, ast.Name):
+                        assigns.setdefault(t.id, []).append(st.value)
+                    elif isinstance(t, ast.Tuple) and isinstance(st.value, ast.Tuple) and len(t.elts) == len(st.value.elts):
+                        for a_, b_ in zip(t.elts, st.value.elts):
+                            if isinstance(a_, ast.Name):
+                                assigns.setdefault(a_.id, []).append(b_)
+            elif isinstance(st, ast.AugAssign) and isinstance(st.target, ast.Name):
+                assigns.setdefault(st.target.id, []).append(st.value)
+
+        def is_mask(x, seen=()):
+            if isinstance(x, ast.Compare):
+                return True
+            if isinstance(x, ast.UnaryOp) and isinstance(x.op, ast.Invert):
+                return is_mask(x.operand, seen)
+            if isinstance(x, ast.BinOp) and isinstance(x.op, (ast.BitAnd, ast.BitOr)):
+                return is_mask(x.left, seen) and is_mask(x.right, seen)
+            if isinstance(x, ast.Call) and isinstance(x.func, ast.Attribute) and x.func.attr in _MASK_FUNCS:
+                return True
+            if isinstance(x, ast.Name) and x.id not in seen and x.id in assigns:
+                return all(is_mask(v, seen + (x.id,)) for v in assigns[x.id])
+            return False
+
+        def filters(x, line, seen=frozenset()):
+            """keys of the row masks through which the ROWS of x are derived (index expressions select, they are not followed; only
+            assignments textually before `line` count)"""
+            out = set()
+            stack = [x]
+            while stack:
+                sub = stack.pop()
+                if isinstance(sub, ast.Subscript):
+                    sl = sub.slice
+                    el0 = sl.elts[0] if isinstance(sl, ast.Tuple) and sl.elts else sl
+                    if not isinstance(el0, ast.Slice) and is_mask(el0):
+                        out.add(norm_text(el0))
+                    stack.append(sub.value)
+                    continue
+                if isinstance(sub, ast.Name):
+                    if sub.id in assigns and sub.id not in seen:
+                        for v in assigns[sub.id]:
+                            if getattr(v, "lineno", 0) < line:
+                                out |= filters(v, getattr(v, "lineno", line), seen | {sub.id})
+                    continue
+                stack.extend(ast.iter_child_nodes(sub))
+            return out
+
+        pos = {}
+        for nm, vals in assigns.items():
+            for v in vals:
+                c = v.value if isinstance(v, ast.Subscript) else v
+                if isinstance(c, ast.Call) and isinstance(c.func, ast.Attribute) and c.func.attr in _POS_FUNCS and len(c.args) == 1:
+                    f_ = filters(c.args[0], c.lineno)
+                    if f_ and len(vals) == 1:
+                        pos[nm] = (f_, c)
+        if not pos:
+            continue
+        for sub in ast.walk(fn.node):
+            if not isinstance(sub, ast.Subscript):
+                continue
+            elts = sub.slice.elts if isinstance(sub.slice, ast.Tuple) else [sub.slice]
+            for el in elts:
+                if isinstance(el, ast.Name) and el.id in pos:
+                    need, c = pos[el.id]
+                    have = filters(sub.value, sub.lineno)
+                    n += 1
+                    ok = need <= have
+                    rep.check(rule, "positions found in a filtered array index arrays filtered the same way", ok, where=fn.loc(sub),
+                              construct=norm_text(sub)[:80], entry=entry, config=res.config,
+                              msg=f"`{el.id}` holds positions within rows selected by `{', '.join(sorted(need))}` ({norm_text(c)[:60]}), but it indexes "
+                                  f"`{norm_text(sub.value)[:40]}`, which was not filtered by that mask: position k of the filtered rows is a different "
+                                  f"row of the unfiltered array whenever a row was filtered out before it")
+    return n
+
+
+def rule_pair_orientation(rep, res, entry=None, rule="R-COVER"):
+    """every unordered pair is considered: inside a loop over itertools.combinations(x, 2) — each unordered pair ONCE — a skip guarded by
+    an order test between the two members (f[i] > f[j]) drops the pair for good; the same test inside a loop over ordered pairs
+    (product(x, x)) merely selects the orientation."""
+    entry = entry or res.entry
+    model = res.ctx.model
+    n = 0
+    for q in sorted(res.ctx.calls_seen):
+        mod, _, name = q.partition(":")
+        fn = model.method(mod, *name.split(".")) if "." in name else model.func(mod, name)
+        if fn is None:
+            continue
+        for loop in ast.walk(fn.node):
+            if not (isinstance(loop, ast.For) and isinstance(loop.iter, ast.Call) and isinstance(loop.target, ast.Tuple)
+                    and len(loop.target.elts) == 2 and all(isinstance(t, ast.Name) for t in loop.target.elts)):
+                continue
+            f = loop.iter.func
+            fname = f.attr if isinstance(f, ast.Attribute) else (f.id if isinstance(f, ast.Name) else "")
+            if fname != "combinations" or len(loop.iter.args) != 2 or not (isinstance(loop.iter.args[1], ast.Constant) and loop.iter.args[1].value == 2):
+                continue
+            a, b = (t.id for t in loop.target.elts)
+            n += 1
+            bad = None
+            for st in ast.walk(loop):
+                if not (isinstance(st, ast.If) and isinstance(st.test, ast.Compare) and len(st.test.ops) == 1
+                        and isinstance(st.test.ops[0], (ast.Gt, ast.Lt, ast.GtE, ast.LtE))):
+                    continue
+                lt, rt = norm_text(st.test.left), norm_text(st.test.comparators[0])
+                import re as _re
+                swap = _re.sub(rf"\b({a}|{b})\b", lambda m: b if m.group(1) == a else a, lt)
+                if swap == rt and lt != rt and any(isinstance(x, ast.Continue) for x in st.body):
+                    bad = st
+                    break
+            rep.check(rule, "no unordered pair is dropped by an order test", bad is None, where=fn.loc(bad if bad is not None else loop),
+                      construct=norm_text(bad.test if bad is not None else loop.iter)[:80], entry=entry, config=res.config,
+                      msg="pairs are enumerated once each (combinations(…, 2)) and a pair is skipped when its members are in the 'wrong' order: "
+                          "pairs that arrive in that order are never considered (with ordered pairs the test only picks the orientation)")
+    return n
